@@ -11,6 +11,9 @@ def _run(fields):
 
 
 _TECH = "Lean 4 proof (invariants by induction over the op sequence of the transition system) + differential correspondence"
+_IOV = ("Writev passes at most IOV_MAX (1024) non-empty slices to writev(2) (more would be a fatal EINVAL in reality); "
+        "the generator uses 0-6 slices and the model's kernel answer does not depend on the slice count")
+
 _KERNEL = ("kernel semantics are inputs of the model: every write/writev/sendfile answer (accepted count <= request, EAGAIN, "
            "EINTR, fatal error) is scripted, an exhausted script means EAGAIN, a zero-length request returns 0 without needing room; "
            "epoll: MOD before ADD fails with ENOENT, ONESHOT disarms the descriptor when an event is reported until the next "
@@ -79,9 +82,10 @@ def cs_write_calls_locked(sc):
             bad.append("%s: lock/unlock/return stream %r" % (sig, t))
     for f, sig in (("conn_unix.go", r"func \(c \*Conn\) flush\("), ("sendfile_unix.go", r"func \(c \*Conn\) Sendfile\(")):
         b = _body(sc, f, sig)
-        t = re.sub(r"[WAFR]", "", _tokens(b)) if b else ""
-        if not re.fullmatch(r"LD(CT)*", t):
-            bad.append("%s: lock stream %r" % (sig, t))
+        t = re.sub(r"[AFR]", "", _tokens(b)) if b else ""
+        # the mutex is taken (and its release deferred) before the write list is looked at
+        if not re.fullmatch(r"LD[WCT]*", t):
+            bad.append("%s: lock stream %r (write list touched outside the locked region?)" % (sig, t))
     return (not bad, "; ".join(bad))
 
 
@@ -116,9 +120,31 @@ def _real_tier(sc, rs, tier, seed):
                          timeout=300 if tier == "quick" else 1800)
 
 
-def _real(fields):
-    return {"harness": "hconn", "driver": "conndrv", "fields": fields, "custom": _real_tier,
-            "quick": {"n": 36, "shards": 1}, "thorough": {"n": 600, "shards": 1}}
+def _sim_and_real(sc, rs, tier, seed):
+    """The simulated-kernel stream (corpus first) and, merged into the same result, the real-socket tier."""
+    from . import core
+    par = rs[tier] if tier in rs else rs["quick"]
+    r = core.diff_run(sc, "hconn", "conndrv", ["-n", str(par["n"]), "-tier", tier], par["shards"], seed,
+                      fields=rs.get("fields"), corpus=core.load_corpus("conn"), timeout=par.get("timeout", 1500))
+    r.merge(_real_tier(sc, rs, tier, seed))
+    return r
+
+
+def _run_with_real(fields):
+    return dict(_run(fields), custom=_sim_and_real)
+
+
+def cs_dialer(sc):
+    """DialAsync path: addDialer marks the write interest (isWAdded) before it ADDs read+write; the tail of the
+    connected callback calls c.resetRead() inside its own locked region."""
+    bad = []
+    b = _body(sc, "poller_epoll.go", r"func \(p \*poller\) addDialer\(") or ""
+    if not re.search(r"c\.isWAdded = true\s*err := p\.addReadWrite\(fd\)", b):
+        bad.append("addDialer: isWAdded = true does not precede addReadWrite")
+    b = _body(sc, "conn_unix.go", r"func \(c \*Conn\) dialed\(") or _body(sc, "poller_epoll.go", r"func \(p \*poller\) readWriteLoop\(") or ""
+    if not re.search(r"c\.mux\.Lock\(\)\s*c\.resetRead\(\)\s*c\.mux\.Unlock\(\)", b):
+        bad.append("connected tail: c.resetRead() is not called in its own locked region")
+    return (not bad, "; ".join(bad))
 
 
 def cs_model_appends_only(sc):
@@ -139,7 +165,16 @@ def cs_model_appends_only(sc):
     return (not bad, "; ".join(bad[:3]))
 
 
-_CS = [cs_model_appends_only, cs_write_calls_locked, cs_rearm_and_register_locked, cs_close_test_and_set]
+def _shared_cs():
+    """the lock-set predicates of tools/csfacts for the same functions (vlib/cs.py: WRITE, CLOSE, DEADLINE)"""
+    try:
+        from . import cs
+        return list(cs.WRITE) + list(cs.CLOSE) + list(cs.DEADLINE)
+    except Exception:  # the shared module is optional for this family's own predicates
+        return []
+
+
+_CS = _shared_cs() + [cs_model_appends_only, cs_dialer, cs_write_calls_locked, cs_rearm_and_register_locked, cs_close_test_and_set]
 
 PROPS = {
     "C01": {
@@ -150,14 +185,18 @@ PROPS = {
                     "oracle on the implementation alone",
             "note": "model fidelity is sampled on every run (simulated kernel: vsys shim); real sockets are not part of this check",
             "technique": _TECH},
-        "lean": ["NbioVerif.Properties.C01"], "drivers": ["conndrv"], "harness": ["hconn"],
-        "runs": [_run(["n", "err", "ow", "cb", "rc", "deliv", "closed", "wire", "onclose"]), _real([])],
+        "lean": ["NbioVerif.Properties.C01", "NbioVerif.Properties.ConnTimer", "NbioVerif.Properties.ConnClose"], "drivers": ["conndrv"], "harness": ["hconn"],
+        "runs": [_run_with_real(["n", "err", "ow", "cb", "rc", "deliv", "closed", "wire", "wl", "left", "pend", "acc", "onclose", "wtimer"])],
         "oracles": ["c01-"], "cs": _CS,
         "rule": "case = (stream type, epoll mode, bound, calls inside the open callback, op sequence with scripted kernel answers); distinct by "
                 "hash of (cell, per op: kind, error class, delivered event parts, queue length class, closed); non-trivial iff a backlog existed "
                 "at some observation or a call returned an error",
         "assumptions": [_KERNEL, _ATOMIC,
                         "sendfile(2) transfers the range it reports and the source file is not truncated while queued; dup(2) succeeds",
+                        _IOV,
+                        "non-interleaving of concurrent calls rests on 'one call = one critical section' (critical-section predicates "
+                        "cs_write_calls_locked + the real-tier oracle c01-real-stream with concurrent writer goroutines), not on a "
+                        "model of two writers inside one call",
                         "a call failing with a fatal error may have put a prefix of its own input on the wire before the connection was closed "
                         "(Sendfile reports 0 then): the closed-connection clause allows exactly that prefix"],
     },
@@ -170,12 +209,16 @@ PROPS = {
             "note": "liveness in safety form (armed invariant + decreasing measure) under the assumption that an armed writable fd is eventually reported",
             "technique": _TECH},
         "lean": ["NbioVerif.Properties.C04"], "drivers": ["conndrv"], "harness": ["hconn"],
-        "runs": [_run(["deliv", "closed", "wl", "wadded", "reg", "ctl", "onclose"]), _real([])],
+        "runs": [_run_with_real(["deliv", "closed", "wl", "wadded", "reg", "kout", "dis", "edge", "ctl", "onclose"])],
         "oracles": ["c04-"], "cs": _CS,
         "rule": "same stream as C01 (writes inside the open callback before registration, from the data callback while an event is handled, "
                 "and between events; EPOLLOUT-only events whose flush ends in EAGAIN); non-trivial iff a backlog existed at some observation",
         "assumptions": [_KERNEL, _ATOMIC,
-                        "ResetPollerEvent reads closed/writeList without the mutex; the model treats the read and the epoll_ctl as one step",
+                        "answer scripts are finite and an exhausted script means EAGAIN: a kernel answering (0, nil) or EINTR for ever "
+                        "(where Go's writeFile / writeBuffer / the flush loop would spin under the mutex) is excluded",
+                        "the default read path of the poller is modelled (g.onRead == nil, AsyncReadInPoller off): a custom OnRead "
+                        "handler must call ResetPollerEvent itself in ONESHOT mode, and the async read path re-arms from its task "
+                        "goroutine (same ResetPollerEvent, now under the connection mutex)",
                         "fairness: an armed, writable descriptor is eventually reported by epoll_wait"],
     },
     "C17": {
@@ -190,6 +233,6 @@ PROPS = {
         "oracles": ["c17-"], "cs": _CS,
         "rule": "same stream as C01 with bounds drawn around the running totals (left + n = bound - 1, bound, bound + 1) and fill/drain cycles; "
                 "non-trivial iff a backlog existed at some observation or a call returned an error",
-        "assumptions": [_KERNEL, _ATOMIC],
+        "assumptions": [_KERNEL, _ATOMIC, _IOV],
     },
 }
